@@ -624,6 +624,33 @@ func main() {
 				break
 			}
 		}
+		// a map and a proper super-map of it in one bucket: h({}) = 17 = 31*(31*17 + h(k)) + v for h(k) = 0 and
+		// v = -16320 (an Equal that only looks the entries of the stored map up in the argument takes them for equal)
+		for i, t := range s.params {
+			u := env.Under(t)
+			if u.K != ty.Map {
+				continue
+			}
+			ku, vu := env.Under(u.Key), env.Under(u.Elem)
+			if ku.K != ty.Basic || vu.K != ty.Basic || vu.B != "int" {
+				continue
+			}
+			var k0 *ty.Val
+			switch ku.B {
+			case "int":
+				k0 = iv(0)
+			case "string":
+				k0 = sv("")
+			default:
+				continue
+			}
+			c0, c1 := append(tuple(nil), t0...), append(tuple(nil), t0...)
+			c0[i] = vg.Inst(&ty.Val{K: ty.VMap})
+			c1[i] = vg.Inst(&ty.Val{K: ty.VMap, Elems: []*ty.Val{k0, iv(-16320)}})
+			emit("memseq", s, "collide-submap", []tuple{c0, c1, c0, c1})
+			emit("memseq", s, "collide-submap", []tuple{c1, c0, c1})
+			break
+		}
 		// two adjacent int parameters: (0,31) and (1,0) collide in the hash of the input struct
 		for i := 0; i+1 < np; i++ {
 			isInt := func(t *ty.Ty) bool { u := env.Under(t); return u.K == ty.Basic && u.B == "int" }
